@@ -56,7 +56,7 @@ class Prop(BaseProp):
     HEADLINE = ["doc_lines_expected", "doc_lines_verified", "docs_checked", "nonascii_lines", "cli_runs"]
 
     def n_cases(self, tier):
-        return 1500 if tier == "quick" else 20000
+        return 6000 if tier == "quick" else 60000
 
     def setup_worker(self):
         runner.cminx()
